@@ -7,7 +7,8 @@ CFG = dict(
     model_targets=["Debug/Cases.vo"],
     proof_targets=["Props/C19.vo"],
     props="Props/C19.v",
-    harness_timeout=1500,
+    harness_timeout=2400,
+    search_tier="quick",
     trusted=COMMON_TRUSTED + ["plain Eval of the same program (output, result, panic) and the marker lines in the program's own output as reference",
                               "hand-written model Debug/Model.v of the debugger branch of runCfg (interp/run.go) and of interp/debugger.go, tied by behavioural correspondence: every session's complete event stream, flag placement and validity are predicted by the model from the dumped CFG and the instrumented plain run",
                               "interp/verif_export_c19.go (build tag verif): read-only CFG dump, closure instrumentation of a plain run (true operation sequence with call depth), closure pre-generation in SetBreakpoints order"],
